@@ -32,7 +32,7 @@ def cases(tier, seed):
                 for mp in mps:
                     for mk in ("none", "bool_sym"):
                         n = N
-                        if tier == "thorough" and mk == "bool_sym" and op in ("rolling_min", "rolling_max", "rolling_mean"):
+                        if tier == "thorough" and (mk == "bool_sym" and op in ("rolling_min", "rolling_max", "rolling_mean") or dt.startswith(("datetime", "timedelta"))):
                             n = 5
                         out.append({"op": op, "dtype": dt, "N": n, "G": G, "W": W, "min_periods": mp, "mask": {"kind": mk},
                                     "witness": dt == "float64" and W == 2 and mp in (None, 1)})
